@@ -2,7 +2,7 @@
 from __future__ import annotations
 
 from mc import dbe, decobs
-from mc.core import pmap, short_hash
+from mc.core import pmap, short_hash, run_tasks
 from mc.decobs import typed
 from props.deccommon import check_ast
 from ref import decmodel
@@ -129,8 +129,7 @@ def run(ctx):
     items = [(list(ch), nd, ast) for ch, nd, ast in dbe.explore(gen, bound, stats)]
     ctx.log(f"{len(items)} scenarios with <= {bound} deviations")
     ctx.rng.shuffle(items)
-    for r in pmap(work, [items[i:i + 25] for i in range(0, len(items), 25)], ctx.workers):
-        ctx.absorb(r)
+    run_tasks(ctx, work, [items[i:i + 25] for i in range(0, len(items), 25)])
     ctx.count(states=stats["nodes"], transitions=stats["choices"])
     ctx.part("define-alias", scenarios=len(items), deviation_bound=bound, per_dimension_max=stats["per_dimension_max"])
     big = max(items, key=lambda x: len(x[2]))
